@@ -19,7 +19,7 @@ def DATE(year, month, day):
         return error.VALUE
     if year < 1900:
         year += 1900
-    return datetime.datetime(year, month, day)
+    return datetime.datetime(utils.whole(year), utils.whole(month), utils.whole(day))
 
 
 @dispatcher.register_for('TIME')
@@ -29,7 +29,7 @@ def TIME(hour, minute, second):
     second = utils.parse_number(second)
     if utils.any_is_error((year, minute, second)):
         return error.VALUE
-    return datetime.datetime(1900, 1, 1, hour, minute, second)
+    return datetime.datetime(1900, 1, 1, utils.whole(year), utils.whole(minute), utils.whole(second))
 
 
 @dispatcher.register_for('DATEVALUE')
